@@ -247,6 +247,8 @@ class Interp:
             return self.const_value(ast.literal_eval(ks[6:]))
         if ks == 'pylist':
             return []
+        if ks.startswith('expr:'):
+            return self.spec(st, ks[5:], raw=True)
         k = parse_kind(ks)
         return self.fresh_of_kind(k, name, st)
 
@@ -348,9 +350,12 @@ class Interp:
         if isinstance(s, ast.Assign):
             for t in s.targets:
                 self._target_names(t, names)
-        if names != {ab['var']}:
-            raise EngineError(f"abstract statement must assign exactly `{ab['var']}`: {self.src(s)[:60]}")
-        st.env[ab['var']] = self.make_param(ab['var'], ab['kind'], st)
+        vars_ = ab['var'] if isinstance(ab['var'], (list, tuple)) else [ab['var']]
+        kinds_ = ab['kind'] if isinstance(ab['var'], (list, tuple)) else [ab['kind']]
+        if names != set(vars_):
+            raise EngineError(f"abstract statement must assign exactly {vars_}: {self.src(s)[:60]}")
+        for vn, vk in zip(vars_, kinds_):
+            st.env[vn] = self.make_param(vn, vk, st) if not isinstance(vk, str) or not vk.startswith('expr:') else self.spec(st, vk[5:], raw=True)
         for label, e in ab.get('facts', []):
             self.assume(st, self.spec(st, e))
         note = f"{self.cur['qualname']}: ASSUMED contract of statement `{self.src(s)[:70]}`: " + '; '.join(e for _, e in ab.get('facts', []))
@@ -385,7 +390,7 @@ class Interp:
             return False
         f = node.func
         root = f
-        while isinstance(root, ast.Attribute):
+        while isinstance(root, (ast.Attribute, ast.Subscript)):
             root = root.value
         inert = tuple(self.cur.get('inert', ())) + INERT_DEFAULT
         if isinstance(root, ast.Name) and root.id in inert and isinstance(f, ast.Attribute):
@@ -624,6 +629,9 @@ class Interp:
             if id(v) in seen:
                 continue
             seen.add(id(v))
+            if isinstance(v, (VInt, VReal, VBool, VStr, VOpaque, VNone, VOpt)) and isinstance(c, ast.Name):
+                names = set(names) | {c.id}        # scalar binding (e.g. a global modified by a callee): rebind the name
+                continue
             self.havoc_value(st, v, tag)
         for n in sorted(names):
             v = st.lookup(n)
@@ -736,6 +744,8 @@ class Interp:
                                       patterns=pats))
             ek = it.ek
             return n, (lambda k: from_term(enum[k], ek))
+        if isinstance(it, VObj) and it.cls == 'File':
+            return self.iter_of_value(it.fields['lines'], st)
         if isinstance(it, VObj) and it.cls == 'DictItems':
             d = it.fields['dict']
             n, kelem = self.iter_of_value(VSet(d.kk, d.dom, d.size), st)
@@ -783,11 +793,14 @@ class Interp:
         self.cover(body_st, f'loop#{k}.body')
         self.assign(s.target, elem(kk), body_st)
         self.hint(body_st, f'loop#{k}.body', pre=body_pre)
+        body_prev = copy.deepcopy({**body_st.glob, **body_st.env})     # prev(x): value at the start of this iteration
         body_st.trail.append(f'[{tag}]')
         outs = []
         dec = spec.get('decreases')
         for y, sig in self.exec_block(s.body, body_st):
             if sig is None or sig.kind == 'continue':
+                y._prev = body_prev
+                self.hint(y, f'loop#{k}.end', pre=body_pre)
                 y.env[idx_name] = VInt(kk + 1)
                 for label, e in invs:
                     self.oblige(y, f'inv#{k}.preserve.{label}', self.spec(y, e, pre=body_pre), text=e)
@@ -1843,7 +1856,12 @@ class Interp:
             self.assume(st, self.spec(sub, expr, contract=c))
         fs = c.get('function_symbol')
         if fs:
-            self.assume(st, self.equal(res, self.apply_function_symbol(c, names, sub, st), st))
+            fv = self.apply_function_symbol(c, names, sub, st)
+            if isinstance(res, VSeq) and isinstance(fv, VSeq):
+                # identical as values (same length, same cell array), not merely element-wise equal
+                self.assume(st, z3.And(res.length == fv.length, res.arr == fv.arr))
+            else:
+                self.assume(st, self.equal(res, fv, st))
         # ghost outputs of the callee become caller-side ghosts (names chosen by the caller's contract)
         for gname, cname in ((self.cur.get('call_ghosts') or {}).get(c['key']) or {}).items():
             st.env[cname] = sub.env[gname]
